@@ -461,6 +461,126 @@ def check_library(case):
     return out
 
 
+# ----------------------------------- library, every random outcome (xp) --
+def xlib_calls():
+    """Small seeded library calls whose complete outcome space is explored:
+    name -> callable(seed).  Sizes are chosen so that the rarely taken paths
+    (retry loops that give up, dense fallbacks) are inside the space."""
+    from cnfgen.families.randomformulas import RandomKCNF
+    from cnfgen.families.randomkxor import RandomKXOR
+    import cnfgen.graphs as g
+
+    def addm(n, missing, m):
+        def f(seed):
+            G = g.Graph.complete_graph(n)
+            for (u, v) in missing:
+                G.remove_edge(u, v)
+            g.add_random_missing_edges(G, m, seed=seed)
+            return sorted(G.edges())
+        return f
+
+    def addb(L, Rr, present, m):
+        def f(seed):
+            G = g.BipartiteGraph(L, Rr)
+            for (u, v) in present:
+                G.add_edge(u, v)
+            g.add_random_missing_edges(G, m, seed=seed)
+            return sorted(G.edges())
+        return f
+
+    def split(n, k):
+        def f(seed):
+            G = g.Graph.complete_graph(n)
+            g.split_random_edges(G, k, seed=seed)
+            return sorted(G.edges())
+        return f
+    return {
+        'add_random_missing_edges:K3-1:1': addm(3, [(1, 2)], 1),
+        'add_random_missing_edges:K4-2:1': addm(4, [(1, 2), (3, 4)], 1),
+        'add_random_missing_edges:K3-2:2': addm(3, [(1, 2), (2, 3)], 2),
+        'add_random_missing_edges:B2x2-1:1': addb(2, 2, [(1, 1), (1, 2), (2, 1)], 1),
+        'add_random_missing_edges:B2x2-2:1': addb(2, 2, [(1, 1), (2, 2)], 1),
+        'split_random_edges:K3:1': split(3, 1),
+        'split_random_edges:K3:2': split(3, 2),
+        'bipartite_random_left_regular:2x3:2': lambda s: sorted(g.bipartite_random_left_regular(2, 3, 2, seed=s).edges()),
+        'bipartite_random_m_edges:2x2:1': lambda s: sorted(g.bipartite_random_m_edges(2, 2, 1, seed=s).edges()),
+        'bipartite_random_m_edges:2x2:3': lambda s: sorted(g.bipartite_random_m_edges(2, 2, 3, seed=s).edges()),
+        'bipartite_random:2x2': lambda s: sorted(g.bipartite_random(2, 2, .5, seed=s).edges()),
+        'bipartite_random_regular:2x2:1': lambda s: sorted(g.bipartite_random_regular(2, 2, 1, seed=s).edges()),
+        'bipartite_random_regular:2x2:2': lambda s: sorted(g.bipartite_random_regular(2, 2, 2, seed=s).edges()),
+        'RandomKCNF:1,2,2': lambda s: [list(c) for c in RandomKCNF(1, 2, 2, seed=s).clauses()],
+        'RandomKCNF:2,2,2': lambda s: [list(c) for c in RandomKCNF(2, 2, 2, seed=s).clauses()],
+        'RandomKCNF:1,2,2:planted': lambda s: [list(c) for c in RandomKCNF(
+            1, 2, 2, seed=s, planted_assignments=[[1, -2]]).clauses()],
+        'RandomKXOR:1,2,2': lambda s: [list(c) for c in RandomKXOR(1, 2, 2, seed=s).clauses()],
+        'RandomKXOR:2,2,2': lambda s: [list(c) for c in RandomKXOR(2, 2, 2, seed=s).clauses()],
+    }
+
+
+def xlib_events_problem(events, seed):
+    """A library generator called with seed=s is a function of s only iff
+    every draw on the process-wide generator comes after random.seed(s), and
+    every private generator it builds is seeded from s (never from the OS)."""
+    seeded = False
+    for ev in events:
+        if ev[0] == 'seed':
+            if ev[1] != seed:
+                return 'global-seed-other', 'random.seed(%r) instead of the seed given (%r)' % (ev[1], seed)
+            seeded = True
+        elif ev[0] == 'gdraw' and not seeded:
+            return 'global-draw-before-seed', ('draw #%d is taken from the process-wide generator, '
+                                               'which was never seeded with the seed given' % ev[1])
+        elif ev[0] in ('new', 'pseed') and ev[1] is None:
+            return 'private-generator-from-os-entropy', 'random.Random() seeded from the OS'
+    return None
+
+
+def check_xlib(case, R=None):
+    from engine import xp
+    calls = xlib_calls()
+    f = calls[case['fn']]
+    seed = case['seed']
+    out = []
+    seen = set()
+
+    def body():
+        return f(seed)
+
+    def look(x):
+        pr = xlib_events_problem(x['events'], seed)
+        if pr and pr[0] not in seen:
+            seen.add(pr[0])
+            c = dict(case)
+            c['choices'] = list(x['choices'])
+            out.append({'key': 'xlib:%s:%s' % (case['fn'].split(':')[0], pr[0]),
+                        'what': '%s(seed=%r): %s' % (case['fn'], seed, pr[1]), 'case': c})
+        if x['status'] == 'done' and x['exception'] is not None and \
+                not isinstance(x['exception'], ValueError):
+            e = x['exception']
+            if 'exc' not in seen:
+                seen.add('exc')
+                c = dict(case)
+                c['choices'] = list(x['choices'])
+                out.append({'key': 'xlib:%s:exception:%s' % (case['fn'].split(':')[0], type(e).__name__),
+                            'what': repr(e)[:200], 'case': c})
+    if case.get('choices') is not None:
+        look(xp.replay(body, case['choices'], private=True))
+        return out
+    st = xp.explore(body, look, on_partial=look, hashing=True, horizon=400, max_execs=60000,
+                    private=True)
+    if R is not None:
+        for k in ('executions', 'states', 'transitions', 'cap_hit'):
+            R.stats['xlib_' + k] += st[k]
+    return out
+
+
+def run_xlib(chunk, R):
+    for case in chunk:
+        R.extend(check_xlib(case, R))
+        R.stats['xlib_cases'] += 1
+        R.case(sample=case if R.evals % 7 == 0 else None, nontrivial=True)
+
+
 def run_library(chunk, R):
     for case in chunk:
         R.extend(check_library(case))
@@ -472,6 +592,8 @@ def run_library(chunk, R):
 def replay(case):
     if case.get('part') == 'L':
         return check_library(case)
+    if case.get('part') == 'X':
+        return check_xlib(case)
     if case.get('part') == 'M':
         return check_monitor(case)[0]
     # process part: rerun the single command under all configurations
@@ -525,4 +647,8 @@ def shards(tier, seed):
     lib = [{'part': 'L', 'fn': fn, 'seed': s} for fn in sorted(library_calls())
            for s in [0, 1, -3, 'abc', 2 ** 40 + 1]]
     out.append(('l000', 'run_library', lib))
+    xl = [{'part': 'X', 'fn': fn, 'seed': s} for fn in sorted(xlib_calls()) for s in (0, 7)]
+    for i in range(6):
+        if xl[i::6]:
+            out.append(('x%03d' % i, 'run_xlib', xl[i::6]))
     return out
